@@ -251,6 +251,7 @@ def mon_c09(ops, obs, eng):
                     launched = True
                     by_batch = True
                     deadline = tick + P[2] * P[1]
+                    fresh = False    # whether the launch is complete is decided when a report is processed AFTER acceptance
                     if val(r) != len(qs):
                         out.append((oi, "first launch batch not accepted"))
                         break
